@@ -337,6 +337,42 @@ def run(ctx):
         k = len(impl)
         V.fail_input("harness ended abnormally (rc=%s) on population %d: %s" % (rc, k, err[-800:]),
                      {"line": lines[k] if k < len(lines) else None, "desc": small_desc(pops[k]) if k < len(pops) else None}, key=None)
+    # every second population is ALSO written through the other public entry point, write_cell_data_file(path, cells), which
+    # compacts the cells itself and writes the geometry sections only: byte for byte the file of write() up to CELL_DATA
+    cidx = [i for i in range(len(lines)) if i % 2 == 1 and i < len(impl)]
+    cimpl, rcc, errc = vlib.run_lines(exe, ["popc" + lines[i][3:] for i in cidx], timeout=1500)
+    entry2 = {"populations": len(cidx), "with_free_slots": 0, "identical_geometry_sections": 0, "failures": 0}
+    if rcc != 0 or len(cimpl) != len(cidx):
+        k = len(cimpl)
+        V.fail_input("harness ended abnormally (rc=%s) in write_cell_data_file(path, cells) on population %d: %s" % (rcc, cidx[k] if k < len(cidx) else -1, errc[-800:]),
+                     {"line": "popc" + lines[cidx[k]][3:] if k < len(cidx) else None}, key=None)
+    for q, i in enumerate(cidx[:len(cimpl)]):
+        a, b = impl[i], cimpl[q]
+        inp = {"line": "popc" + lines[i][3:], "desc": small_desc(pops[i])}
+        entry2["with_free_slots"] += 1 if any(c["free_n"] or c["free_f"] for c in pops[i]) else 0
+        if not a.startswith("ok file "):
+            continue                      # judged below on the write() path
+        msg = None
+        if not b.startswith("ok file "):
+            msg = "write_cell_data_file(path, cells) + read back raised: %s" % b[:160]
+        else:
+            ta = bytes.fromhex(a.split(" ", 3)[2]).decode("latin-1")
+            tb = bytes.fromhex(b.split(" ", 3)[2]).decode("latin-1")
+            cut = ta.find("CELL_DATA")
+            ga = a.split(" ", 4)[4].split(" cells ", 1)[-1]
+            gb = b.split(" ", 4)[4].split(" cells ", 1)[-1].split(" texc ", 1)[0]      # (this file has no cell_type_id array)
+            if cut < 0 or tb.rstrip("\n") != ta[:cut].rstrip("\n"):
+                k = next((z for z, (x, y) in enumerate(zip(tb, ta)) if x != y), min(len(tb), len(ta)))
+                msg = ("the file of write_cell_data_file(path, cells) is not the geometry part of the file of write() (first difference at byte %d: %r vs %r)"
+                       % (k, tb[k:k + 30], ta[k:k + 30]))
+            elif ga != gb:
+                msg = "the geometry read back from the file of write_cell_data_file(path, cells) differs from the one of write()"
+            else:
+                entry2["identical_geometry_sections"] += 1
+        if msg:
+            entry2["failures"] += 1
+            if entry2["failures"] <= 3:
+                V.fail_input(msg, inp, key=None)
     drv = vlib.driver_path("drv_c16")
     stats = {"cells": {}, "with_free_slots": 0, "classes": [0] * 6, "faces_max": 0, "coords": 0, "tie_mismatch": 0,
              "oracle_fail": 0, "audit_fail": 0, "bytes": 0}
@@ -499,6 +535,7 @@ def run(ctx):
         "evaluations": len(impl), "distinct_nontrivial": len(set(lines)),
         "rule": "seeded populations: 1-40 cells (tetra/octa/cube/icosa, 0-3 midpoint subdivisions, at most 2500 (quick) / 5000 (thorough) node slots per population), all five cell classes forced when >= 5 cells, node relabelling, face shuffling, coordinates scale 1e-9..1e6 (10% each 1e-300..1e-9, 1e6..1e300), signs, offsets, +-0, decimal ties of the 5-digit rounding, free node/face slots (NaN/Inf content, shuffled free queues) in half of the cells; + 3 corpus populations; distinct = distinct request lines",
         "cells_per_population": {str(k): v for k, v in sorted(stats["cells"].items())},
+        "second_entry_point_write_cell_data_file": entry2,
         "populations_with_free_slots": stats["with_free_slots"], "class_counts": stats["classes"], "max_face_slots": stats["faces_max"],
         "coordinates_written": stats["coords"], "file_bytes": stats["bytes"],
         "oracle_failures": stats["oracle_fail"], "count_audit_failures": stats["audit_fail"], "model_vs_impl_disagreements": stats["tie_mismatch"],
